@@ -1771,3 +1771,42 @@ Proof.
     destruct T as (st1 & er & st2 & [n R] & FS & K & O).
     exists (S n), er, st2. split; [eapply run_steps_failed; eassumption|auto].
 Qed.
+
+(* ------------------------------------------------------------------------ *)
+(* a finished run stays finished whatever the fuel: with the refinement this
+   gives crash-freedom, for every fuel, of all programs of the fragment on
+   which the reference terminates *)
+Lemma run_done_stable p n : forall a v s, run p n a = RDone v s ->
+  forall m, run p m a = RDone v s \/ exists s', run p m a = ROutOfFuel s'.
+Proof.
+  induction n as [|n IH]; intros a v s H m; cbn [run] in H; [discriminate|].
+  destruct m as [|m]; [right; eexists; reflexivity|]. cbn [run].
+  destruct (step p a) as [a'|v' a'|e a'| |]; try discriminate.
+  - eapply IH; eassumption.
+  - left. exact H.
+Qed.
+
+Lemma run_failed_stable p n : forall a e s, run p n a = RFailed e s ->
+  forall m, run p m a = RFailed e s \/ exists s', run p m a = ROutOfFuel s'.
+Proof.
+  induction n as [|n IH]; intros a e s H m; cbn [run] in H; [discriminate|].
+  destruct m as [|m]; [right; eexists; reflexivity|]. cbn [run].
+  destruct (step p a) as [a'|v' a'|e' a'| |]; try discriminate.
+  - eapply IH; eassumption.
+  - left. exact H.
+Qed.
+
+Theorem run_never_crashes_when_ref_terminates : forall p fuel exprs r s',
+  prog_good p = true ->
+  forallb in_fragment exprs = true -> well_annotated_toplevel exprs = true ->
+  ref_run p fuel exprs = (r, s') ->
+  (exists v, r = Ok v) \/ (exists k, r = Ctl (CErr k)) ->
+  forall n, run p n (init_state exprs None None) <> RCrashed /\
+            run p n (init_state exprs None None) <> RUnsupported.
+Proof.
+  intros p fuel exprs r s' PG F W H T n.
+  pose proof (machine_refines_ref_partial p fuel exprs r s' PG F W H) as M.
+  destruct T as [[v ->]|[k ->]].
+  - destruct M as (m & st' & R & _). destruct (run_done_stable _ _ _ _ _ R n) as [E|[s2 E]]; rewrite E; split; discriminate.
+  - destruct M as (m & er & st' & R & _). destruct (run_failed_stable _ _ _ _ _ R n) as [E|[s2 E]]; rewrite E; split; discriminate.
+Qed.
